@@ -14,5 +14,6 @@ CHECKS = {
     "C10": dict(engine="e3_keysched", bins=["e3_keysched"], level="model_checking", ns=True, prebuild=["prebuild-ebpf"], tools=["unshare", "ip", "clang"]),
     "C16": dict(engine="e3_provision", bins=["e3_provision"], level="model_checking", ns=True, tools=["unshare", "ip"]),
     "C09": dict(engine="e5_keykeeper", bins=["e5_keykeeper"], level="model_checking", ns=True, prebuild=["prebuild-ebpf"], tools=["unshare", "ip", "clang"]),
+    "C12": dict(engine="e5_leak", bins=["e5_leak"], level="exploration", ns=True, prebuild=["prebuild-ebpf"], tools=["unshare", "ip", "clang"]),
     "C02": dict(engine="e1_rbac", bins=["e1_rbac"], level="exploration"),
 }
